@@ -134,6 +134,19 @@ impl IndexRead {
         Ok(hunks)
     }
 
+    /// Make an iterator over the hunks of this index, or fail if they cannot be listed.
+    ///
+    /// Unlike [IndexRead::iter_available_hunks], a listing error is returned rather than
+    /// treated as an index without hunks; use it together with [IndexHunkIter::try_next].
+    pub async fn try_iter_available_hunks(self) -> Result<IndexHunkIter> {
+        let hunks = self.hunks_available().await?;
+        Ok(IndexHunkIter {
+            hunks: hunks.into_iter(),
+            index: self,
+            after: None,
+        })
+    }
+
     /// Make an iterator that returns hunks of entries from this index,
     /// skipping any that are not present.
     pub async fn iter_available_hunks(self) -> IndexHunkIter {
